@@ -8,9 +8,9 @@ def DefaultDataTTL : Nat := 86400000000000
 end cloudconstants
 
 namespace Skel
-def Mem_AppendToList : List String := ["mu.Lock", "defer mu.Unlock", "@m.data", "{ret", "@m.data", "Add", "}", "IsZero", "@item.Expiration", "After", "@item.Expiration", "{ret", "@m.data", "Add", "}", "@item.Value", "{ret", "@item.Value", "}"]
+def Mem_AppendToList : List String := ["mu.Lock", "defer mu.Unlock", "@m.data", "@m.data", "@m.data", "{ret", "@m.data", "Add", "}", "IsZero", "@item.Expiration", "After", "@item.Expiration", "{ret", "@m.data", "Add", "}", "@item.Value", "{ret", "@item.Value", "}"]
 def Mem_CleanupExpired : List String := ["mu.Lock", "defer mu.Unlock", "@m.data", "IsZero", "@item.Expiration", "After", "@item.Expiration", "delete", "@m.data"]
-def Mem_CompareAndSwap : List String := ["mu.Lock", "defer mu.Unlock", "@m.data", "{ret", "{ret", "@m.data", "expirationFor", "}", "}", "IsZero", "@item.Expiration", "After", "@item.Expiration", "{ret", "delete", "@m.data", "{ret", "@m.data", "expirationFor", "}", "}", "@item.Value", "{ret", "}", "@item.Value", "@item.Expiration", "expirationFor"]
+def Mem_CompareAndSwap : List String := ["mu.Lock", "defer mu.Unlock", "@m.data", "@m.data", "@m.data", "{ret", "{ret", "@m.data", "expirationFor", "}", "}", "IsZero", "@item.Expiration", "After", "@item.Expiration", "{ret", "delete", "@m.data", "{ret", "@m.data", "expirationFor", "}", "}", "@item.Value", "{ret", "}", "@item.Value", "@item.Expiration", "expirationFor"]
 def Mem_Delete : List String := ["mu.Lock", "defer mu.Unlock", "delete", "@m.data"]
 def Mem_DeleteHash : List String := ["mu.Lock", "defer mu.Unlock", "@m.data", "{ret", "}", "IsZero", "@item.Expiration", "After", "@item.Expiration", "{ret", "delete", "@m.data", "}", "@hash", "@item.Value", "{ret", "delete", "@hash", "}"]
 def Mem_Exists : List String := ["mu.RLock", "defer mu.RUnlock", "@m.data", "{ret", "}", "@m.data", "{ret", "}", "IsZero", "@item.Expiration", "After", "@item.Expiration", "{ret", "}"]
@@ -20,14 +20,14 @@ def Mem_GetExpiration : List String := ["mu.RLock", "@m.data", "{ret", "mu.RUnlo
 def Mem_GetHash : List String := ["mu.RLock", "@m.data", "{ret", "mu.RUnlock", "}", "IsZero", "@item.Expiration", "After", "@item.Expiration", "@hash", "@item.Value", "@hash", "mu.RUnlock", "{ret", "mu.Lock", "@m.data", "IsZero", "@item.Expiration", "After", "@item.Expiration", "delete", "@m.data", "mu.Unlock", "}", "{ret", "}", "{ret", "}"]
 def Mem_GetList : List String := ["m.Get", "{ret", "}", "{ret", "}"]
 def Mem_Incr : List String := ["m.IncrBy"]
-def Mem_IncrBy : List String := ["mu.Lock", "defer mu.Unlock", "@m.data", "Add", "@m.data", "IsZero", "@item.Expiration", "After", "@item.Expiration", "@item.Value", "@item.Expiration", "Add", "@item.Value", "{ret", "@item.Value", "}"]
+def Mem_IncrBy : List String := ["mu.Lock", "defer mu.Unlock", "@m.data", "@m.data", "@m.data", "Add", "@m.data", "IsZero", "@item.Expiration", "After", "@item.Expiration", "@item.Value", "@item.Expiration", "Add", "@item.Value", "{ret", "@item.Value", "}"]
 def Mem_QueryByPrefix : List String := ["mu.RLock", "defer mu.RUnlock", "@m.data", "{ret", "}", "@m.data", "IsZero", "@item.Expiration", "After", "@item.Expiration", "@item.Value", "@item.Value"]
 def Mem_RemoveFromList : List String := ["mu.Lock", "defer mu.Unlock", "@m.data", "{ret", "}", "IsZero", "@item.Expiration", "After", "@item.Expiration", "{ret", "delete", "@m.data", "}", "@item.Value", "{ret", "@item.Value", "}"]
 def Mem_Set : List String := ["mu.Lock", "defer mu.Unlock", "@m.data", "@m.data", "Add", "@m.data"]
 def Mem_SetExpiration : List String := ["mu.Lock", "defer mu.Unlock", "@m.data", "{ret", "}", "IsZero", "@item.Expiration", "After", "@item.Expiration", "{ret", "delete", "@m.data", "}", "@item.Expiration", "expirationFor"]
 def Mem_SetHash : List String := ["mu.Lock", "defer mu.Unlock", "@m.data", "@m.data", "@m.data", "Add", "@m.data", "IsZero", "@item.Expiration", "After", "@item.Expiration", "@item.Value", "@item.Expiration", "Add", "@hash", "@item.Value", "{ret", "@hash", "}", "@item.Value", "@hash", "@item.Value", "@hash"]
 def Mem_SetList : List String := ["m.Set"]
-def Mem_SetNX : List String := ["mu.Lock", "defer mu.Unlock", "@m.data", "IsZero", "@item.Expiration", "After", "@item.Expiration", "{ret", "}", "delete", "@m.data", "Add", "@m.data"]
+def Mem_SetNX : List String := ["mu.Lock", "defer mu.Unlock", "@m.data", "@m.data", "@m.data", "IsZero", "@item.Expiration", "After", "@item.Expiration", "{ret", "}", "delete", "@m.data", "Add", "@m.data"]
 def Mem_Watch : List String := ["mu.RLock", "@m.data", "IsZero", "@item.Expiration", "After", "@item.Expiration", "@item.Value", "mu.RUnlock"]
 def Mem_ZAdd : List String := ["mu.Lock", "defer mu.Unlock", "@m.data", "@m.data", "@m.data", "@m.data", "@item.Value", "{ret", "@item.Value", "}", "@item.Value"]
 def Mem_ZCard : List String := ["mu.RLock", "defer mu.RUnlock", "@m.data", "{ret", "}", "@m.data", "{ret", "}", "@item.Value", "{ret", "}"]
